@@ -85,6 +85,24 @@ def pingMsg (H : Bytes → Bytes) (cfg : Cfg) (salt nonce : Bytes) : Ping :=
 def pongAccepted (H : Bytes → Bytes) (cfg : Cfg) (salt nonce : Bytes) (p : Pong) : Bool :=
   p.authResult && p.digest == H (salt ++ p.hostname ++ nonce ++ cfg.sharedKey.getD [])
 
+/-! server-side helpers of `handshake.go`: `computeHexDigest`, `ValidatePingDigest`, `ValidatePongDigest`, `NewPong` -/
+
+/-- `computeHexDigest(salt, hostname, nonce, key)` -/
+def hexDigest (H : Bytes → Bytes) (salt hostname nonce key : Bytes) : Bytes := H (salt ++ hostname ++ nonce ++ key)
+
+/-- `ValidatePingDigest(p, key, nonce)` -/
+def validatePing (H : Bytes → Bytes) (p : Ping) (key nonce : Bytes) : Bool :=
+  p.digest == hexDigest H p.salt p.hostname nonce key
+
+/-- `ValidatePongDigest(p, key, nonce, salt)` -/
+def validatePong (H : Bytes → Bytes) (p : Pong) (key nonce salt : Bytes) : Bool :=
+  p.digest == hexDigest H salt p.hostname nonce key
+
+/-- `NewPong(authResult, reason, hostname, key, helo, ping)` -/
+def newPong (H : Bytes → Bytes) (auth : Bool) (reason hostname key nonce : Bytes) (ping : Ping) : Pong :=
+  { mtype := [0x50, 0x4f, 0x4e, 0x47], authResult := auth, reason := reason, hostname := hostname,
+    digest := hexDigest H ping.salt hostname nonce key }
+
 /-- `Handshake()` -/
 def handshake (H : Bytes → Bytes) (cfg : Cfg) (s : St) (helo salt pong : Bytes) (fault : WFault) : St × Out :=
   match s.session with
